@@ -48,6 +48,7 @@ def parseSink (s : List Char) : Option Sink :=
   else if let some r := stripPrefix "lazy" s then
     match dotted r with | some [w, k] => some (.lazyTo w k) | _ => none
   else if s = "info".toList then some .info
+  else if let some r := stripPrefix "swapr" s then (natOf r).map .swapVal
   else if let some r := stripPrefix "swap" s then (natOf r).map .swapVal
   else none
 
